@@ -14,16 +14,26 @@ while i < len(args):
         scale = args[i + 1]; i += 2
     else:
         ids.append(args[i]); i += 1
-st = subprocess.run(["git", "-C", "/repo", "status", "--porcelain", "--untracked-files=no"], capture_output=True, text=True).stdout.strip()
-if st:
-    sys.exit("refusing: /repo has local changes:\n" + st)
-r = subprocess.run(["git", "-C", "/repo", "apply", patch], capture_output=True, text=True)
+USE_WT = os.environ.get("TRYPATCH_WORKTREE") == "1"  # apply in a scratch worktree and point the checks at it (VERIF_REPO): safe next to other runs
+TREE = "/repo"
+if USE_WT:
+    TREE = "/tmp/wt_try_%d" % os.getpid()
+    subprocess.run(["git", "-C", "/repo", "worktree", "add", "-q", TREE, "HEAD"], check=True)
+else:
+    st = subprocess.run(["git", "-C", "/repo", "status", "--porcelain", "--untracked-files=no"], capture_output=True, text=True).stdout.strip()
+    if st:
+        sys.exit("refusing: /repo has local changes:\n" + st)
+r = subprocess.run(["git", "-C", TREE, "apply", patch], capture_output=True, text=True)
 if r.returncode:
+    if USE_WT:
+        subprocess.run(["git", "-C", "/repo", "worktree", "remove", "--force", TREE])
     sys.exit("patch does not apply: " + r.stderr)
 res = {}
 try:
     for pid in ids:
         env = dict(os.environ, VERIF_SEED=seed)
+        if USE_WT:
+            env["VERIF_REPO"] = TREE
         env.pop("VERIF_CHILD", None)
         out = subprocess.run([os.path.join(V, "check"), pid, "--tier", "quick", "--no-evidence", "--scale", scale], env=env, cwd=V,
                              capture_output=True, text=True, timeout=3000)
@@ -32,5 +42,8 @@ try:
         res[pid] = {"rc": out.returncode, "violations": viol, "harness": harn,
                     "summary": [l for l in out.stdout.splitlines() if l.startswith("SUMMARY")]}
 finally:
-    subprocess.run(["git", "-C", "/repo", "checkout", "--", "."], check=True)
+    if USE_WT:
+        subprocess.run(["git", "-C", "/repo", "worktree", "remove", "--force", TREE])
+    else:
+        subprocess.run(["git", "-C", "/repo", "checkout", "--", "."], check=True)
 print(json.dumps(res, indent=1))
